@@ -119,8 +119,8 @@ func c09RunSched2(co *caseOut, in c09SInput, dir string, seq int) error {
 			rstate = next
 		case <-collected:
 			rstate = 3
-		case <-time.After(30 * time.Second):
-			return errC09Stuck
+		case <-time.After(c09StepTimeout):
+			return c09Stuck("c09sched2:select1")
 		}
 		return nil
 	}
@@ -162,8 +162,8 @@ func c09RunSched2(co *caseOut, in c09SInput, dir string, seq int) error {
 				if err != nil {
 					return err
 				}
-			case <-time.After(30 * time.Second):
-				return errC09Stuck
+			case <-time.After(c09StepTimeout):
+				return c09Stuck("c09sched2:select2")
 			}
 		case "lwrite2":
 			coqActs = append(coqActs, "TLw")
@@ -171,7 +171,7 @@ func c09RunSched2(co *caseOut, in c09SInput, dir string, seq int) error {
 				break
 			}
 			gX.putGo <- struct{}{}
-			if err := c09Wait(gX.putWritten); err != nil {
+			if err := c09Wait(gX.putWritten, "c09sched2:gX.putWritten"); err != nil {
 				return err
 			}
 			pstate = written
@@ -186,8 +186,8 @@ func c09RunSched2(co *caseOut, in c09SInput, dir string, seq int) error {
 				if err != nil {
 					return err
 				}
-			case <-time.After(30 * time.Second):
-				return errC09Stuck
+			case <-time.After(c09StepTimeout):
+				return c09Stuck("c09sched2:select3")
 			}
 			gX.putArmed = false
 			pstate = idle
@@ -223,7 +223,7 @@ func c09RunSched2(co *caseOut, in c09SInput, dir string, seq int) error {
 			coqActs = append(coqActs, "TRead")
 			if rstate == 2 {
 				gX.seekGo <- struct{}{}
-				if err := c09Wait(collected); err != nil {
+				if err := c09Wait(collected, "c09sched2:collected"); err != nil {
 					return err
 				}
 				rstate = 3
@@ -240,7 +240,7 @@ func c09RunSched2(co *caseOut, in c09SInput, dir string, seq int) error {
 	switch pstate { // let a pending Persist finish
 	case swapped:
 		gX.putGo <- struct{}{}
-		if err := c09Wait(gX.putWritten); err != nil {
+		if err := c09Wait(gX.putWritten, "c09sched2:gX.putWritten"); err != nil {
 			return err
 		}
 		fallthrough
